@@ -30,6 +30,13 @@ class CodemodCollection:
     codemods: list
 
 
+def _compile_codemod_pattern(pattern: str) -> re.Pattern:
+    """Compile an id pattern in which `*` is the only wildcard and the whole id must match."""
+    return re.compile(
+        ".*".join(re.escape(part) for part in pattern.split("*")), re.DOTALL
+    )
+
+
 class CodemodRegistry:
     _codemods_by_id: dict[str, BaseCodemod]
     _default_include_paths: set[str]
@@ -80,7 +87,7 @@ class CodemodRegistry:
         if codemod_exclude and not codemod_include:
             base_codemods = {}
             patterns = [
-                re.compile(exclude.replace("*", ".*"))
+                _compile_codemod_pattern(exclude)
                 for exclude in codemod_exclude
                 if "*" in exclude
             ]
@@ -88,7 +95,7 @@ class CodemodRegistry:
 
             for codemod in self.codemods:
                 if codemod.id in names or any(
-                    pat.match(codemod.id) for pat in patterns
+                    pat.fullmatch(codemod.id) for pat in patterns
                 ):
                     continue
 
@@ -101,8 +108,10 @@ class CodemodRegistry:
         matched_codemods = []
         for name in codemod_include:
             if "*" in name:
-                pat = re.compile(name.replace("*", ".*"))
-                pattern_matches = [code for code in self.codemods if pat.match(code.id)]
+                pat = _compile_codemod_pattern(name)
+                pattern_matches = [
+                    code for code in self.codemods if pat.fullmatch(code.id)
+                ]
                 matched_codemods.extend(pattern_matches)
                 if not pattern_matches:
                     logger.warning(
@@ -114,7 +123,8 @@ class CodemodRegistry:
                 matched_codemods.append(self._codemods_by_id[name])
             except KeyError:
                 logger.warning(f"Requested codemod to include '{name}' does not exist.")
-        return matched_codemods
+        # Each codemod runs at most once, at the position it was first requested
+        return list({codemod.id: codemod for codemod in matched_codemods}.values())
 
     def describe_codemods(
         self,
